@@ -242,6 +242,36 @@ def h_diag_refuse(B, what):
         B.raises("no sampling dtype: refuses to sample", RuntimeError, lambda: draw(op, False, Noise("zero")))
 
 
+def h_sandwich_nonnormal(B, inv):
+    """SandwichOperator whose bun is invertible but NOT normal (bun bun^H != bun^H bun): D1 HT^-1 D2 HT on a 2-pixel grid;
+    the Hartley kernels are the DFT contracts of C09"""
+    from .c09 import setup as setup09
+    setup09()
+    dom = ift.DomainTuple.make(ift.RGSpace(2, distances=0.5))
+    d = B.reals("d", (2,))
+    p, q = B.reals("p", (2,)), B.reals("q", (2,))
+    B.assume_all([t > 0 for t in d])
+    B.assume_all([t != 0 for t in list(p) + list(q)])
+    HT = ift.HartleyOperator(dom)
+
+    def bun_op():
+        return ift.makeOp(field_of(dom, p)) @ HT.inverse @ ift.makeOp(field_of(HT.target, q)) @ HT
+
+    def mk():
+        cheese = ift.DiagonalOperator(field_of(dom, d), sampling_dtype=_dt(B, False))
+        return ift.SandwichOperator.make(bun_op(), cheese)
+    bo = bun_op()
+    Mb = np.empty((2, 2), dtype=object)
+    for k in range(2):
+        e = np.zeros(2)
+        e[k] = 1.
+        col = np.asarray(bo(field_of(dom, e.astype(object) if B.mode == "sym" else e)).val.val, dtype=object).reshape(-1)
+        Mb[:, k] = col
+    A = Mb.T @ np.diag(d) @ Mb
+    cols, _ = sample_matrix(B, mk, inv, False)
+    check_cov(B, "SandwichOperator[non-normal invertible bun]: T T^H == " + ("A^-1" if inv else "A"), cols, _inv2(A) if inv else A, False)
+
+
 def h_sandwich(B, bun, inv, cplx=False, outer=None):
     with shims_cl.complex_mode(cplx):
         dom = ift.DomainTuple.make(U(N))
@@ -388,6 +418,8 @@ def scenarios(tier, seed):
     for bun in ("matrix", "diag", "scaling", "matrix_diag"):
         for inv in (False, True):
             out.append(("sandwich", {"bun": bun, "inv": inv}))
+    out.append(("sandwich_nonnormal", {"inv": True}))
+    out.append(("sandwich_nonnormal", {"inv": False}))
     out.append(("sandwich", {"bun": "matrix", "inv": False, "cplx": True}))
     out.append(("sandwich", {"bun": "diag", "inv": True, "cplx": True}))
     for outer in ("inv", "adj"):
@@ -407,7 +439,7 @@ def scenarios(tier, seed):
 
 
 HARNESSES = {"scaling": h_scaling, "scaling_refuse": h_scaling_refuse, "diag": h_diag, "diag_refuse": h_diag_refuse,
-             "sandwich": h_sandwich, "block": h_block, "makeop_multi": h_makeop_multi, "sum": h_sum, "enabler": h_enabler}
+             "sandwich": h_sandwich, "sandwich_nonnormal": h_sandwich_nonnormal, "block": h_block, "makeop_multi": h_makeop_multi, "sum": h_sum, "enabler": h_enabler}
 OPTS = {"quick": {"max_paths": 64}, "thorough": {"max_paths": 128, "budget_s": 1200}}
 
 META = {
